@@ -12,7 +12,7 @@
 (* outcome when repeated) is applied by the harness to the real parser;    *)
 (* the prediction is recorded to measure specification drift.              *)
 (***************************************************************************)
-EXTENDS Lex, Json
+EXTENDS Diag, Json
 CONSTANTS K, Mode, MaxOps
 VARIABLES seq, t, n, mut
 
@@ -69,5 +69,7 @@ IsCase == IF Mode = "atoms" THEN Len(seq) >= 1 ELSE mut # NoMut
 \* prediction class only (trees are compared by C05/C06/C13, not here)
 Pred == LET r == ParseText(Text) IN r[1]
 
-Export == PrintT(ToJson(IF IsCase THEN [k |-> "case", text |-> Text, pred |-> Pred] ELSE [k |-> "partial"]))
+\* the exact diagnosis (module Diag): which error, where; only the class and the fields are exported, not the tree
+DiagOf == LET d == DiagText(Text) IN IF d[1] = "ok" THEN <<"ok">> ELSE d
+Export == PrintT(ToJson(IF IsCase THEN [k |-> "case", text |-> Text, pred |-> Pred, diag |-> DiagOf] ELSE [k |-> "partial"]))
 =============================================================================
